@@ -793,3 +793,50 @@ package iavl
 //@   callsite freevar:receiver@3 [update] !arg0.Delete && arg0.Key == newLeave.key && arg0.Value == newLeave.value && ord(orphaned.key) == ord(newLeave.key)
 //@   callsite freevar:receiver@4 [removal-no-new] arg0.Delete && arg0.Key == orphaned.key
 //@   modifies *
+
+// ---------------------------------------------------------------- proof.go / proof_ics23.go (C03, C17): the path to a leaf, and what an existence proof is built from
+
+// hashing memoises in node.hash and touches nothing else of any node (so every
+// node keeps its abstract view): the working hash can be asked for at any time
+//@ func (*Node).hashWithCount(node, version) (h)
+//@   props C02 C06
+//@   nosafety
+//@   ensures [memo] node != nil && old(node.hash) != nil ==> h == old(node.hash) && node.hash == old(node.hash)
+//@   ensures [frame] nframe(old(heap(N)), heap(N), old(na))
+//@   modifies Node.hash[*]
+
+//@ func (*Node).writeHashBytesRecursively(node, w, version) (err)
+//@   props C02 C06
+//@   nosafety
+//@   requires node != nil && w != nil
+//@   ensures [frame] nframe(old(heap(N)), heap(N), old(na))
+//@   modifies Node.hash[*], wstream[w]
+
+//@ func (*ImmutableTree).Hash(t) (h)
+//@   props C02 C06
+//@   requires t != nil
+//@   ensures [memo] t.root != nil && old(t.root.hash) != nil ==> h == old(t.root.hash)
+//@   ensures [frame] nframe(old(heap(N)), heap(N), old(na))
+//@   modifies Node.hash[*]
+
+//@ func (*Node).pathToLeaf(node, t, key, version, path) (res, err)
+//@   props C03 C17
+//@   requires node != nil && t != nil && t.ndb != nil && path != nil && valid(node)
+//@   ensures [found] err == nil ==> res != nil && res.subtreeHeight == 0 && ord(res.key) == ord(key)
+//@   ensures [frame] nframe(old(heap(N)), heap(N), old(na))
+//@   modifies *path, ProofInnerNode.*[*], nodeDB.*[*], Statistics.*[*]
+//@   decreases hgt(view(node))
+
+//@ func (*Node).PathToLeaf(node, t, key, version) (path, res, err)
+//@   props C03 C17
+//@   requires node != nil && t != nil && t.ndb != nil && valid(node)
+//@   ensures [found] err == nil ==> res != nil && res.subtreeHeight == 0 && ord(res.key) == ord(key)
+//@   ensures [frame] nframe(old(heap(N)), heap(N), old(na))
+//@   modifies ProofInnerNode.*[*], nodeDB.*[*], Statistics.*[*]
+
+// an existence proof is built from the leaf the path ends in, for the key asked
+//@ func (*ImmutableTree).createExistenceProof(t, key) (proof, err)
+//@   props C03 C17
+//@   requires t != nil && t.root != nil && t.ndb != nil && valid(t.root)
+//@   ensures [for-key] err == nil ==> proof != nil && ord(proof.Key) == ord(key)
+//@   modifies *
